@@ -683,11 +683,11 @@ fn sandwich_scenario(seed: u64, k: u64) -> Scenario {
 /// comparisons or formatters over the nested object run out of stack here.
 pub fn pairdeep_count(spec: &SoloSpec, tier: Tier) -> u64 {
     match (spec.prop, tier) {
-        ("C09", Tier::Quick) => 40,
-        ("C09", Tier::Thorough) => 160,
+        ("C09", Tier::Quick) => 96,
+        ("C09", Tier::Thorough) => 384,
         ("C14", _) | ("C15", _) | ("C16", _) | ("C08", _) => 0,
-        (_, Tier::Quick) => 2,
-        (_, Tier::Thorough) => 10,
+        (_, Tier::Quick) => 4,
+        (_, Tier::Thorough) => 20,
     }
 }
 
@@ -752,10 +752,10 @@ fn pairdeep_scenario(seed: u64, tier: Tier, k: u64) -> Scenario {
     let round = (k as usize) / groups.len();
     let pp = g.1[round % g.1.len()];
     let reps = match tier {
-        Tier::Quick => 6_000,
-        Tier::Thorough => [3_000usize, 6_000, 9_000, 14_000][round % 4],
+        Tier::Quick => 20_000,
+        Tier::Thorough => [6_000usize, 12_000, 20_000, 30_000][round % 4],
     };
-    pp.scenario_compact(reps)
+    pp.scenario_compact(if pp.superlinear { reps.min(5_000) } else { reps })
 }
 
 /// "beyond 2^16" runs: the cheap extremal patterns (memo entries, open MARKs, nesting — their stack
@@ -766,16 +766,45 @@ pub fn wide_count(spec: &SoloSpec, tier: Tier) -> u64 {
         return 0;
     }
     match tier {
-        Tier::Quick => 6,
-        Tier::Thorough => 24,
+        Tier::Quick => 8,
+        Tier::Thorough => 32,
     }
 }
 
+/// a memo of 98 304 entries whose kinds cycle with period 3 (None, list, tuple - so that entry i and
+/// entry i - 65 536 differ in kind), built by a stack-neutral steered program, followed by 900
+/// free-running choices: half again as many entries as a 16-bit index can address
+fn wide_mixed_memo(seed: u64, k: u64) -> Scenario {
+    let (p, put) = match (k / 8) % 4 {
+        0 => (2u8, "LONG_BINPUT"),
+        1 => (4, "MEMOIZE"),
+        2 => (1, "LONG_BINPUT"),
+        _ => (5, "MEMOIZE"),
+    };
+    let (p, put) = if k % 8 == 7 { (if p == 2 { 4 } else if p == 4 { 2 } else if p == 1 { 5 } else { 1 }, if put == "MEMOIZE" { "LONG_BINPUT" } else { "MEMOIZE" }) } else { (p, put) };
+    let reps = 32_768usize;
+    let ops = vec![format!("(NONE {put} POP EMPTY_LIST {put} POP EMPTY_TUPLE {put} POP)*{reps}")];
+    let n = reps * 9 + 900;
+    // steering happens under the decision-tree configuration (opt-in opcodes enabled)
+    let c = tree_config(p, n);
+    let mut sc = Scenario::solo(c, Entropy::Bytes(vec![]));
+    sc.steer = Some(desc::Steer { ops, tail: None, free: Some((900, desc::derive_seed(seed, "wide.mixed", k))) });
+    sc.faults.push(desc::Fault {
+        kind: "steered",
+        at: 0,
+        detail: format!("98 304 memo entries of three alternating kinds through {put} (stack-neutral steered program), then 900 free-running choices"),
+    });
+    sc
+}
+
 pub fn wide_scenario(spec: &SoloSpec, seed: u64, k: u64) -> Scenario {
+    if k % 8 >= 6 {
+        return wide_mixed_memo(seed, k);
+    }
     let pats = deep_patterns(seed);
-    // (objective, protocol group) in turn; rank = k / 6
-    let (obj, low) = [(3usize, true), (3, false), (2, true), (2, false), (0, true), (0, false)][(k % 6) as usize];
-    let rank = (k / 6) as usize;
+    // (objective, protocol group) in turn; rank = k / 8
+    let (obj, low) = [(3usize, true), (3, false), (2, true), (2, false), (0, true), (0, false)][(k % 8) as usize];
+    let rank = (k / 8) as usize;
     let mut idx: Vec<usize> = (0..pats.len())
         .filter(|&i| !pats[i].pat.is_empty() && !pats[i].once && (pats[i].protocol <= 1) == low && pats[i].score[obj] >= 700 && (pats[i].score[1] <= 8 || obj == 2 || obj == 0))
         .collect();
@@ -956,6 +985,10 @@ pub struct PairPattern {
     /// output bytes of the 10-repetition probe when the stack stayed flat (never more than 3 items,
     /// at most 2 at the end), else 0
     pub flat_bytes: u32,
+    /// the stack grows with the repetitions, or the bytes allocated for 400 repetitions are more than
+    /// 2.6 times those for 200 (copies of growing containers): such patterns cost O(n^2) on the
+    /// unchanged tree and are run with fewer repetitions
+    pub superlinear: bool,
 }
 
 pub const PAIR_VOCAB: [&str; 22] = [
@@ -1005,7 +1038,7 @@ impl PairPattern {
         }
         let n = self.prefix_len(reps) + 2 * reps;
         let mut sc = Scenario::solo(tree_config(self.protocol, n), Entropy::Bytes(vec![]));
-        sc.steer = Some(desc::Steer { ops, tail: None });
+        sc.steer = Some(desc::Steer { ops, tail: None, free: None });
         sc.faults.push(desc::Fault {
             kind: "steered",
             at: 0,
@@ -1017,7 +1050,7 @@ impl PairPattern {
         let ops = self.program(reps);
         let n = ops.len() + usize::from(tail.is_some());
         let mut sc = Scenario::solo(tree_config(self.protocol, n), Entropy::Bytes(vec![]));
-        sc.steer = Some(desc::Steer { ops, tail });
+        sc.steer = Some(desc::Steer { ops, tail, free: None });
         sc.faults.push(desc::Fault {
             kind: "steered",
             at: 0,
@@ -1044,9 +1077,30 @@ fn pair_candidates() -> Vec<(u8, usize, &'static str, &'static str)> {
     v
 }
 
+/// deterministic cost probe: bytes allocated on this thread while running `make(400)` against
+/// `make(200)`; more than 2.6x means the pattern is super-linear (copies of growing containers)
+/// a unit that copies (DUP / GET family) a container it also grows in place costs O(n^2) in a
+/// simulator with copy semantics (each copy clones or re-hashes the grown container)
+fn copies_what_it_grows(unit: &[&str]) -> bool {
+    let copy = unit.iter().any(|o| matches!(*o, "DUP" | "BINGET" | "GET" | "LONG_BINGET"));
+    let grow = unit.iter().any(|o| matches!(*o, "APPEND" | "APPENDS" | "SETITEM" | "SETITEMS" | "ADDITEMS"));
+    copy && grow
+}
+
+fn superlinear_cost(make: impl Fn(usize) -> Scenario) -> bool {
+    let cost = |reps: usize| -> u64 {
+        let sc = make(reps);
+        let before = crate::leak::total_allocated();
+        let _ = exec::run_scenario(&sc, Trace::Off, false);
+        crate::leak::total_allocated() - before
+    };
+    let (c2, c4) = (cost(200), cost(400));
+    c4 > c2 * 26 / 10
+}
+
 /// probe one pair pattern: steer prefix + (a b)^10 through the real generator, measure with R3
 fn probe_pair(p: u8, pi: usize, a: &'static str, b: &'static str) -> Option<PairPattern> {
-    let mut pp = PairPattern { protocol: p, prefix: PAIR_PREFIXES[pi].to_vec(), a, b, unfolded_log2: 0, nesting: 0, flat_bytes: 0 };
+    let mut pp = PairPattern { protocol: p, prefix: PAIR_PREFIXES[pi].to_vec(), a, b, unfolded_log2: 0, nesting: 0, flat_bytes: 0, superlinear: false };
     let sc = pp.scenario(PAIR_PROBE_REPS, None);
     let recs = exec::run_scenario(&sc, Trace::Off, false);
     let out = recs.first()?.outcome.bytes()?;
@@ -1077,6 +1131,10 @@ fn probe_pair(p: u8, pi: usize, a: &'static str, b: &'static str) -> Option<Pair
     if max_stack <= 3 && m.stack.len() <= 2 && m.memo.len() <= 1 {
         pp.flat_bytes = out.len() as u32;
     }
+    if pp.nesting >= 8 {
+        let growing = m.stack.len() > pp.prefix_len(PAIR_PROBE_REPS) + 3;
+        pp.superlinear = growing || copies_what_it_grows(&[pp.a, pp.b]) || superlinear_cost(|reps| pp.scenario_compact(reps));
+    }
     Some(pp)
 }
 
@@ -1095,7 +1153,7 @@ pub fn pair_patterns(seed: u64) -> &'static Vec<PairPattern> {
                                 .filter_map(|e| {
                                     let i = e[0].as_u64()? as usize;
                                     let (p, pi, a, b) = *cands.get(i)?;
-                                    Some(PairPattern { protocol: p, prefix: PAIR_PREFIXES[pi].to_vec(), a, b, unfolded_log2: e[1].as_u64()? as u32, nesting: e[2].as_u64()? as u32, flat_bytes: e[3].as_u64().unwrap_or(0) as u32 })
+                                    Some(PairPattern { protocol: p, prefix: PAIR_PREFIXES[pi].to_vec(), a, b, unfolded_log2: e[1].as_u64()? as u32, nesting: e[2].as_u64()? as u32, flat_bytes: e[3].as_u64().unwrap_or(0) as u32, superlinear: e[4].as_bool().unwrap_or(false) })
                                 })
                                 .collect();
                             return out;
@@ -1151,9 +1209,11 @@ fn pair_progress(i: usize, begin: bool) {
 }
 
 /// the probe run of pair candidate `i` as a scenario (attribution of a dead probing child)
-pub fn pair_probe_scenario(i: usize) -> Option<Scenario> {
-    let (p, pi, a, b) = *pair_candidates().get(i)?;
-    Some(PairPattern { protocol: p, prefix: PAIR_PREFIXES[pi].to_vec(), a, b, unfolded_log2: 0, nesting: 0, flat_bytes: 0 }.scenario(PAIR_PROBE_REPS, None))
+pub fn pair_probe_scenarios(i: usize) -> Vec<Scenario> {
+    let Some(&(p, pi, a, b)) = pair_candidates().get(i) else { return vec![] };
+    let pp = PairPattern { protocol: p, prefix: PAIR_PREFIXES[pi].to_vec(), a, b, unfolded_log2: 0, nesting: 0, flat_bytes: 0, superlinear: false };
+    // the 10-repetition probe and the two cost runs
+    vec![pp.scenario(PAIR_PROBE_REPS, None), pp.scenario_compact(200), pp.scenario_compact(400)]
 }
 
 /// when PFSIM_PROBE_PROGRESS is set (the isolated probing child of the C09 check) every probe is
@@ -1181,7 +1241,239 @@ pub fn probe_scenario(p: u8, pre: &[u8], pat: &[u8], once: bool) -> Scenario {
 
 /// compute the probe table now (used by the isolated probing child)
 pub fn force_deep_patterns(seed: u64) -> usize {
-    deep_patterns(seed).len() + pair_patterns(seed).len()
+    deep_patterns(seed).len() + pair_patterns(seed).len() + triple_patterns(seed).len()
+}
+
+// ------------------------------------------------------------------------------------------
+// model-proposed three-opcode periodic programs
+
+/// a periodic program prefix . (unit)^k with a three-opcode unit
+#[derive(Clone, Debug)]
+pub struct NPattern {
+    pub protocol: u8,
+    pub prefix: Vec<&'static str>,
+    pub unit: Vec<&'static str>,
+    pub nesting: u32,
+    pub superlinear: bool,
+}
+
+pub const TRIPLE_VOCAB: [&str; 19] = [
+    "NONE", "EMPTY_TUPLE", "EMPTY_LIST", "EMPTY_DICT", "GLOBAL", "MARK", "DUP", "POP", "TUPLE1", "TUPLE2", "TUPLE", "LIST", "DICT", "APPEND", "SETITEM", "REDUCE", "BUILD", "NEWOBJ", "BINPERSID",
+];
+pub const TRIPLE_PREFIXES: [&[&str]; 8] = [&[], &["NONE"], &["EMPTY_LIST"], &["EMPTY_DICT"], &["GLOBAL"], &["GLOBAL", "EMPTY_TUPLE", "REDUCE"], &["MARK*"], &["MARK*", "NONE"]];
+const FILLER_OPS: [&str; 6] = ["MARK", "NONE", "EMPTY_TUPLE", "EMPTY_LIST", "EMPTY_DICT", "GLOBAL"];
+
+impl NPattern {
+    fn tokens(&self, reps: usize) -> Vec<String> {
+        let mut ops: Vec<String> = if self.prefix.first() == Some(&"MARK*") {
+            let mut v = vec![format!("MARK*{}", reps + 4)];
+            v.extend(self.prefix[1..].iter().map(|s| s.to_string()));
+            v
+        } else {
+            self.prefix.iter().map(|s| s.to_string()).collect()
+        };
+        ops.push(format!("({})*{}", self.unit.join(" "), reps));
+        ops
+    }
+    pub fn scenario(&self, reps: usize) -> Scenario {
+        let ops = self.tokens(reps);
+        let n = crate::synth::token_ops(&ops);
+        let mut sc = Scenario::solo(tree_config(self.protocol, n), Entropy::Bytes(vec![]));
+        sc.steer = Some(desc::Steer { ops, tail: None, free: None });
+        sc.faults.push(desc::Fault {
+            kind: "steered",
+            at: 0,
+            detail: format!("prefix {:?} then ({}) x {} (the reference machine nests {} levels in 10 repetitions)", self.prefix, self.unit.join(" "), reps, self.nesting),
+        });
+        sc
+    }
+    fn key(&self) -> Vec<&'static str> {
+        let mut k: Vec<&'static str> = self.unit.iter().copied().filter(|o| !FILLER_OPS.contains(o)).collect();
+        k.sort();
+        k.dedup();
+        k
+    }
+}
+
+/// model-side proposal of three-opcode units (reference machine only, no code under test)
+pub fn triple_proposals() -> &'static Vec<(usize, [&'static str; 3], u32)> {
+    use std::sync::OnceLock;
+    static CACHE: OnceLock<Vec<(usize, [&'static str; 3], u32)>> = OnceLock::new();
+    CACHE.get_or_init(|| {
+        // both aliasing semantics are tried: CPython's (DUP / GET alias) and the copying one a
+        // simulator may implement (it is the generator, not the model, that decides what is built)
+        let simulate1 = |prefix: &[&'static str], unit: &[&'static str], reps: usize, copy: bool| -> Option<(u32, usize)> {
+            let mut m = crate::machine::Machine::new();
+            m.track_graph = true;
+            m.lenient_memo = true;
+            m.copy_on_alias = copy;
+            let mut prog: Vec<&'static str> = vec![];
+            if prefix.first() == Some(&"MARK*") {
+                prog.extend(std::iter::repeat("MARK").take(reps + 4));
+                prog.extend_from_slice(&prefix[1..]);
+            } else {
+                prog.extend_from_slice(prefix);
+            }
+            for _ in 0..reps {
+                prog.extend_from_slice(unit);
+            }
+            let mut max_stack = 0;
+            for name in prog {
+                let op = crate::synth::make_op(name, &m)?;
+                match m.step(&op) {
+                    Ok(info) if info.kind_violations.is_empty() => {}
+                    _ => return None,
+                }
+                max_stack = max_stack.max(m.stack.len());
+            }
+            Some((m.max_depth, max_stack))
+        };
+        let simulate = |prefix: &[&'static str], unit: &[&'static str], reps: usize| -> Option<(u32, usize)> {
+            match (simulate1(prefix, unit, reps, false), simulate1(prefix, unit, reps, true)) {
+                (Some(a), Some(b)) => Some((a.0.max(b.0), a.1.max(b.1))),
+                (a, b) => a.or(b),
+            }
+        };
+        let mut proposals: Vec<(usize, [&'static str; 3], u32)> = vec![];
+        for (pi, prefix) in TRIPLE_PREFIXES.iter().enumerate() {
+            for a in TRIPLE_VOCAB {
+                for b in TRIPLE_VOCAB {
+                    for c in TRIPLE_VOCAB {
+                        let unit = [a, b, c];
+                        let Some((nest, max_stack)) = simulate(prefix, &unit, 10) else { continue };
+                        let base = if prefix.first() == Some(&"MARK*") { 14 + prefix.len() } else { prefix.len() };
+                        if nest < 8 || max_stack > base + 4 {
+                            continue;
+                        }
+                        // units that merely pad a nesting pair with a plain push are pair patterns
+                        if unit.iter().filter(|o| !FILLER_OPS.contains(o)).count() < 2 {
+                            continue;
+                        }
+                        proposals.push((pi, unit, nest));
+                    }
+                }
+            }
+        }
+        proposals
+    })
+}
+
+/// the runs the probing child executes for proposal `i` (attribution of a dead probing child)
+pub fn triple_probe_scenarios(i: usize) -> Vec<Scenario> {
+    let Some(&(pi, unit, nest)) = triple_proposals().get(i) else { return vec![] };
+    let mut out = vec![];
+    for p in [2u8, 4] {
+        let np = NPattern { protocol: p, prefix: TRIPLE_PREFIXES[pi].to_vec(), unit: unit.to_vec(), nesting: nest, superlinear: false };
+        for reps in [10usize, 200, 400] {
+            out.push(np.scenario(reps));
+        }
+    }
+    out
+}
+
+fn triple_progress(i: usize, begin: bool) {
+    use std::io::Write;
+    use std::sync::OnceLock;
+    static ON: OnceLock<bool> = OnceLock::new();
+    if *ON.get_or_init(|| std::env::var("PFSIM_PROBE_PROGRESS").is_ok()) {
+        let o = std::io::stdout();
+        let mut o = o.lock();
+        let _ = writeln!(o, "{} {}", if begin { "TB" } else { "TE" }, i);
+        let _ = o.flush();
+    }
+}
+
+/// Candidates are proposed by the reference machine R3 (no code under test involved): every unit of
+/// three opcodes over a 19-opcode vocabulary after each of 8 prefixes is simulated for 10
+/// repetitions (under CPython's aliasing semantics and under copying semantics); units with at least
+/// two structural opcodes that nest >= 8 levels without an operand-rule violation and without
+/// growing the stack are kept. Each survivor is then
+/// steered through the real generator (10 repetitions); what the generator offers becomes a pattern.
+pub fn triple_patterns(seed: u64) -> &'static Vec<NPattern> {
+    use std::sync::OnceLock;
+    static CACHE: OnceLock<Vec<NPattern>> = OnceLock::new();
+    CACHE.get_or_init(|| {
+        if let Ok(path) = std::env::var("PFSIM_DEEP_FILE") {
+            if let Ok(txt) = std::fs::read_to_string(&path) {
+                if let Ok(v) = serde_json::from_str::<Value>(&txt) {
+                    if v["seed"].as_str() == Some(&seed.to_string()) {
+                        if let Some(a) = v["triples"].as_array() {
+                            let name = |x: &Value| x.as_str().and_then(|n| if n == "MARK*" { Some("MARK*") } else { crate::lexer::by_name(n).map(|i| i.name) });
+                            return a
+                                .iter()
+                                .filter_map(|e| {
+                                    Some(NPattern {
+                                        protocol: e[0].as_u64()? as u8,
+                                        prefix: e[1].as_array()?.iter().filter_map(name).collect(),
+                                        unit: e[2].as_array()?.iter().filter_map(name).collect(),
+                                        nesting: e[3].as_u64()? as u32,
+                                        superlinear: e[4].as_bool().unwrap_or(false),
+                                    })
+                                })
+                                .collect();
+                        }
+                    }
+                }
+            }
+        }
+        let proposals = triple_proposals();
+        // 2. what the real generator offers: steer 10 repetitions
+        let nt = n_threads();
+        let mut kept: Vec<(usize, NPattern)> = std::thread::scope(|s| {
+            let hs: Vec<_> = (0..nt)
+                .map(|t| {
+                    s.spawn(move || {
+                        let mut out = vec![];
+                        let mut i = t;
+                        while i < proposals.len() {
+                            let (pi, unit, nest) = proposals[i];
+                            triple_progress(i, true);
+                            for p in [2u8, 4] {
+                                let mut np = NPattern { protocol: p, prefix: TRIPLE_PREFIXES[pi].to_vec(), unit: unit.to_vec(), nesting: nest, superlinear: false };
+                                tick();
+                                if crate::synth::steer_tokens(p, &np.tokens(10)).is_some() {
+                                    np.superlinear = copies_what_it_grows(&np.unit) || superlinear_cost(|reps| np.scenario(reps));
+                                    out.push((i, np));
+                                    break;
+                                }
+                            }
+                            triple_progress(i, false);
+                            i += nt;
+                        }
+                        out
+                    })
+                })
+                .collect();
+            hs.into_iter().flat_map(|h| h.join().unwrap()).collect()
+        });
+        kept.sort_by_key(|x| x.0);
+        kept.into_iter().map(|x| x.1).collect()
+    })
+}
+
+fn tripledeep_scenario(seed: u64, tier: Tier, k: u64) -> Scenario {
+    let all = triple_patterns(seed);
+    let mut groups: Vec<(Vec<&'static str>, Vec<&NPattern>)> = vec![];
+    for np in all.iter() {
+        let key = np.key();
+        match groups.iter_mut().find(|g| g.0 == key) {
+            Some(g) => g.1.push(np),
+            None => groups.push((key, vec![np])),
+        }
+    }
+    groups.sort_by(|x, y| x.0.len().cmp(&y.0.len()).then(x.0.cmp(&y.0)));
+    if groups.is_empty() {
+        return Scenario::solo(Config::default_for(0), Entropy::Rand(k));
+    }
+    let g = &groups[(k as usize) % groups.len()];
+    let round = (k as usize) / groups.len();
+    let np = g.1[round % g.1.len()];
+    // deep enough that a recursive walk of ~130 bytes per level overflows a 2 MiB stack
+    let reps = match tier {
+        Tier::Quick => 20_000,
+        Tier::Thorough => [6_000usize, 12_000, 20_000, 30_000][round % 4],
+    };
+    np.scenario(if np.superlinear { reps.min(5_000) } else { reps })
 }
 
 /// (protocol, steering prefix, stuck byte) for every opcode X that the generator can be made to
@@ -1373,7 +1665,8 @@ pub fn export_deep_patterns_to(seed: u64, path: &str) {
     let pairs = pair_patterns(seed);
     let idx = PAIR_INDEX.get().cloned().unwrap_or_default();
     let doc = json!({"seed": seed.to_string(), "patterns": pats.iter().map(|p| json!([p.protocol, desc::hex(&p.pat), p.score.to_vec(), p.once, desc::hex(&p.pre)])).collect::<Vec<_>>(),
-        "pairs": pairs.iter().zip(idx.iter()).map(|(p, i)| json!([i, p.unfolded_log2, p.nesting, p.flat_bytes])).collect::<Vec<_>>()});
+        "pairs": pairs.iter().zip(idx.iter()).map(|(p, i)| json!([i, p.unfolded_log2, p.nesting, p.flat_bytes, p.superlinear])).collect::<Vec<_>>(),
+        "triples": triple_patterns(seed).iter().map(|t| json!([t.protocol, t.prefix, t.unit, t.nesting, t.superlinear])).collect::<Vec<_>>()});
     if std::fs::write(&path, doc.to_string()).is_ok() {
         std::env::set_var("PFSIM_DEEP_FILE", &path);
     }
@@ -1443,7 +1736,9 @@ pub fn deep_scenario(spec: &SoloSpec, seed: u64, tier: Tier, k: u64) -> Scenario
     let pairdeep = pairdeep_count(spec, tier);
     let pairflat = pairflat_count(spec, tier);
     if k >= base + wide + tails + sandwich && k < base + wide + tails + sandwich + pairdeep {
-        return pairdeep_scenario(seed, tier, k - base - wide - tails - sandwich);
+        // two-opcode and three-opcode units in turn
+        let j = k - base - wide - tails - sandwich;
+        return if j % 2 == 0 { pairdeep_scenario(seed, tier, j / 2) } else { tripledeep_scenario(seed, tier, j / 2) };
     }
     if k >= base + wide + tails + sandwich + pairdeep && k < base + wide + tails + sandwich + pairdeep + pairflat {
         return pairflat_scenario(seed, k - base - wide - tails - sandwich - pairdeep);
@@ -1510,10 +1805,14 @@ fn deep_scenario_base(spec: &SoloSpec, seed: u64, tier: Tier, k: u64) -> Scenari
         // the extreme call first, then ordinary calls on the same generator (always for the history
         // properties, every other deep run for the rest: every call is judged)
         let follow = Entropy::Rand(rng.random::<u64>() >> 20);
+        let f2 = Entropy::Rand(rng.random::<u64>() >> 20);
+        let f3 = Entropy::Rand(rng.random::<u64>() >> 20);
+        // three ordinary calls afterwards: housekeeping that reacts to the extreme call may only act
+        // one or two calls later (capacity reviews, deferred shrinking)
         sc.history = match k % 3 {
-            0 => vec![deep_call, HOp::SetRange(10, 60), HOp::Gen(follow)],
-            1 => vec![deep_call, HOp::Reset, HOp::SetRange(10, 60), HOp::Gen(follow)],
-            _ => vec![HOp::SetRange(10, 60), HOp::Gen(follow.clone()), HOp::SetRange(n, n), deep_call, HOp::SetRange(10, 60), HOp::Gen(follow)],
+            0 => vec![deep_call, HOp::SetRange(60, 300), HOp::Gen(follow), HOp::Gen(f2), HOp::Gen(f3)],
+            1 => vec![deep_call, HOp::Reset, HOp::SetRange(10, 60), HOp::Gen(follow), HOp::SetRange(60, 300), HOp::Gen(f2), HOp::Gen(f3)],
+            _ => vec![HOp::SetRange(10, 60), HOp::Gen(follow.clone()), HOp::SetRange(n, n), deep_call, HOp::SetRange(60, 300), HOp::Gen(follow), HOp::Gen(f2), HOp::Gen(f3)],
         };
     } else {
         sc.history = vec![deep_call];
